@@ -339,6 +339,7 @@ func checkC20(c *core.Ctx) error {
 	checkErrorBranches(c)
 	checkInterfaceComparisons(c)
 	checkOptionalScratch(c)
+	checkQRShiftStrategy(c)
 	checkTipGuard(c)
 	checkRestartProtocol(c)
 	checkOptionSwitches(c)
@@ -881,8 +882,19 @@ func checkDimensionGuards(c *core.Ctx) {
 		_ = nacc
 	})
 	c.Analysed["dimension_guard_methods"] = nMethods
+	// methods the interpreter does not reach are a reviewed, bounded set: anything beyond it is a loss of coverage and fails
+	reviewed := map[string]int{
+		"AppendMagicVector": 2, // real dense vectors: appends through the generic interface, no indexed access of its own
+		"JOINT_ITERATOR_":   2, // constructs an iterator, no indexed access
+		"MDOTM":             2, // real dense matrices: scratch vectors taken from the receiver (r.tmp1[0:n]); the float/int instances are interpreted
+		"MdotM":             2,
+	}
 	for k, v := range dimUndecided {
 		c.Analysed["dimension_guard_uninterpreted_"+k] = v
+		if v > reviewed[k] {
+			c.Unknown("C20.R2", "dimension guards", "method "+k+" interpreted", token.NoPos,
+				fmt.Sprintf("%d instances of %s left the interpreter's idiom set (reviewed: %d): their dimension guards are not checked", v, k, reviewed[k]))
+		}
 	}
 }
 
